@@ -16,7 +16,7 @@ from datetime import datetime
 import numpy as np
 
 from acnportal.acnsim import Simulator
-from acnportal.acnsim.events import EventQueue, PluginEvent, RecomputeEvent
+from acnportal.acnsim.events import EventQueue, PluginEvent, RecomputeEvent, UnplugEvent
 from acnportal.acnsim.models import EV, Battery, Linear2StageBattery
 from acnportal.acnsim.models.evse import EVSE, DeadbandEVSE, FiniteRatesEVSE
 from acnportal.acnsim.network import ChargingNetwork, Current
@@ -386,6 +386,9 @@ def build_sim(scn, algo=None, on_call=None, on_return=None, net_cls=MonNet, moni
         evs[s["sid"]] = ev
         # "pt": the plug-in EVENT may carry another timestamp than the EV's nominal arrival (driver early / late)
         events.append(PluginEvent(s.get("pt", s["a"]), ev))
+        if s.get("xu") is not None:
+            # the user queues an explicit early unplug; the simulator's own unplug at the departure is then a no-op EVENT
+            events.append(UnplugEvent(s["xu"], ev))
     for t in scn.get("recompute", []):
         events.append(RecomputeEvent(t))
     inner = algo if algo is not None else make_algorithm(scn["sched"])
